@@ -2174,7 +2174,7 @@ class WassersteinVectorizer(BaseEstimator, TransformerMixin):
                     start = i * 512
                     end = min(start + 512, len(X))
                     sample_vectors.extend(
-                        tuple(np.ascontiguousarray(vectors[start:end]))
+                        tuple([np.ascontiguousarray(v) for v in vectors[start:end]])
                     )
 
             result_blocks = []
